@@ -45,7 +45,8 @@ MANIFEST = {
             'symbolic in-domain arguments, the result is well-formed '
             '(dimension names exist, shapes equal dimension lengths, '
             'unlimited flags of surviving dimensions kept, attributes '
-            'retrievable) and the call completes.',
+            'retrievable) and the call completes.'
+            ' Also: boolean-mask selections, mask(where=), and ioapi_base.from_arrays with and without a supplied TFLAG (TSTEP unlimited in the constructed file and in a window of it).',
     'note': 'Trusted: z3, numpy shape/indexing semantics (real numpy), the '
             'well-formedness predicate written in the harness. Structural '
             'bound: 3 file structures, pairs of operations.',
